@@ -430,7 +430,11 @@ def prep_fallback_scenario(rng, sid):
     a_ops = [f'prep {c} 0'] + rng.choice(tails)
     # reads inside the section the guard protects, then the validation: with a genuine shared grant nothing can be
     # committed in between, with an optimistic guard the validation must notice what was
-    a_reader = [f'prep {c} 0', f'bool {c}', 'payrd 0', 'payrd 0', f'cverify {c}', 'payrd 0', f'cverify {c}', f'dtor {c}']
+    # (no payload reads here: under a non-owning composite guard they would be optimistic reads, which may legitimately be
+    # torn; `getver` on an OptGuard is the scheduling point - it also waits for a writer that is inside)
+    o = g.var(0, 'Opt')
+    a_reader = [f'prep {c} 0', f'bool {c}', f'getver {o} 0', f'getver {o} 0', f'cverify {c}', f'getver {o} 0', f'cverify {c}',
+                f'dtor {c}']
     sb, ib, xb = g.var(1, 'S'), g.var(1, 'SIX'), g.var(1, 'X')
     xw = g.var(2, 'X')
     hold = rng.choice([6, 8, 10])
@@ -451,8 +455,9 @@ def prep_fallback_scenario(rng, sid):
         # nobody interferes with the fallback: it takes its shared grant; the owning guard is then moved, the moved-from
         # object dies, and the survivor is validated after the writer tried to come back
         b_ops = ['payrd 0'] if False else [f'lock S {sb} 0', 'payrd 0', f'dtor {sb}']
-        a_ops = [f'prep {c} 0', f'mctor {c2} {c}', f'dtor {c}', 'payrd 0', 'payrd 0', f'cverify {c2}', 'payrd 0',
-                 f'cverify {c2}', f'bool {c2}', f'dtor {c2}']
+        o2 = g.var(0, 'Opt')
+        a_ops = [f'prep {c} 0', f'mctor {c2} {c}', f'dtor {c}', f'getver {o2} 0', f'getver {o2} 0', f'cverify {c2}',
+                 f'getver {o2} 0', f'cverify {c2}', f'bool {c2}', f'dtor {c2}']
     elif first == 'S':
         b_ops = [f'lock S {sb} 0'] + ['payrd 0'] * rng.choice([3, 8, 12]) + [f'dtor {sb}']
     elif first == 'SIX':
